@@ -413,6 +413,24 @@ func c06Match(c *vrep.Ctx) {
 	t, _ := strconv.ParseFloat(c.Param("t", "0.8"), 64)
 	cl := vEmbeddedCached(t)
 	docs := vDocPool(c.ParamInt("docs", c.Pick(431, 431)))
+	if mb := c.ParamInt("maxbytes", 0); mb > 0 {
+		// every-position runs: the n smallest documents of at least 200 bytes up to maxbytes
+		var small []vDoc
+		for _, d := range vCorpusFiles() {
+			if len(d.Bytes) <= mb && len(d.Bytes) >= 200 {
+				small = append(small, d)
+			}
+		}
+		if n := c.ParamInt("docs", len(small)); n < len(small) {
+			step := len(small) / n
+			var pick []vDoc
+			for i := 0; i < n; i++ {
+				pick = append(pick, small[i*step])
+			}
+			small = pick
+		}
+		docs = small
+	}
 	positions := c.ParamInt("positions", c.Pick(3, 12))
 	kinds := strings.Split(c.Param("kinds", strings.Join(c06Kinds, ",")), ",")
 	c.R.Rule = fmt.Sprintf("Match level: %d documents in OOV context x edit kinds %v (8 notice templates, 2 date forms, 8 markers on one/all eligible lines, word splits at every split point, 35 spelling pairs both directions, http<->https) at up to %d evenly spread positions (0 = every position); license matches must be identical (names, variants, confidences, token spans, mapped lines) and every inserted notice reported on its line; non-trivial = distinct (document, edit) cases whose base input has a license match", len(docs), kinds, positions)
